@@ -139,7 +139,9 @@ func (w *World) Resolve(p graphql.ResolveParams) (interface{}, error) {
 		for _, v := range p.Args {
 			mutateInPlace(v)
 		}
-		p.Args["zz_added_by_resolver"] = true
+		// the defaulting idiom, also on an empty argument map; the value names the writer, so that a map shared between
+		// calls shows up in what later calls see
+		p.Args["zz_added_by_resolver"] = pt + "." + p.Info.FieldName
 	}
 	te, err := gq.ParseType(fd.Type)
 	if err != nil {
@@ -297,7 +299,7 @@ func Wide() *gq.SchemaDesc {
 		fs := append([]gq.FieldDesc{}, ifaceFields...)
 		fs = append(fs, gq.FieldDesc{Name: "me", Type: "String"}, gq.FieldDesc{Name: "u", Type: "U"}, gq.FieldDesc{Name: "kids", Type: "[Node!]"},
 			gq.FieldDesc{Name: "nn", Type: "Int!"}, gq.FieldDesc{Name: "al", Type: "Alias"}, gq.FieldDesc{Name: "als", Type: "[Alias!]"},
-			gq.FieldDesc{Name: "echoT", Type: "String", Args: echoArgs()})
+			gq.FieldDesc{Name: "echoT", Type: "String", Args: echoArgs()}, gq.FieldDesc{Name: "echoNoArgsT", Type: "String"})
 		s.Types = append(s.Types, gq.TypeDesc{Kind: "OBJECT", Name: n, Interfaces: []string{"Node", "Typed"}, Fields: fs, IsTypeOf: true})
 	}
 	s.Types = append(s.Types,
@@ -319,7 +321,7 @@ func Wide() *gq.SchemaDesc {
 			{Name: "node", Type: "Node"}, {Name: "nodes", Type: "[Node]"}, {Name: "typed", Type: "Typed"}, {Name: "u", Type: "U"}, {Name: "us", Type: "[U!]"},
 			{Name: "t1", Type: "T1"}, {Name: "strict", Type: "T2!"},
 			{Name: "alias", Type: "Alias", Args: []gq.ArgDesc{{Name: "x", Type: "Alias"}}}, {Name: "aliases", Type: "[Alias]"},
-			{Name: "echo", Type: "String", Args: echoArgs()},
+			{Name: "echo", Type: "String", Args: echoArgs()}, {Name: "echoNoArgs", Type: "String"}, {Name: "echoNoArgs2", Type: "String"},
 			{Name: "staff", Type: "Staff"}, {Name: "staffs", Type: "[Staff!]"}, {Name: "role", Type: "Role"}, {Name: "zeta", Type: "Zeta"},
 			{Name: "zetaStaff", Type: "Staff"}, {Name: "zetaStaffs", Type: "[Staff!]"}, {Name: "zetaRole", Type: "Role"},
 		}},
